@@ -1,0 +1,65 @@
+//! Verification hooks (feature `verif-trace`). Add-only instrumentation: one event per
+//! visitor transition, logged *after* the state change, into a thread-local buffer that a
+//! harness drains per transformed module. Nothing here is compiled unless the feature is on.
+
+use std::cell::RefCell;
+
+thread_local! {
+    static EVENTS: RefCell<Vec<String>> = const { RefCell::new(Vec::new()) };
+}
+
+/// A field value of a hook event.
+pub enum V<'a> {
+    S(&'a str),
+    N(i64),
+    B(bool),
+    L(Vec<String>),
+}
+
+fn esc(s: &str, out: &mut String) {
+    out.push('"');
+    for c in s.chars() {
+        match c {
+            '"' => out.push_str("\\\""),
+            '\\' => out.push_str("\\\\"),
+            '\n' => out.push_str("\\n"),
+            '\r' => out.push_str("\\r"),
+            '\t' => out.push_str("\\t"),
+            c if (c as u32) < 0x20 => out.push_str(&format!("\\u{:04x}", c as u32)),
+            c => out.push(c),
+        }
+    }
+    out.push('"');
+}
+
+pub fn emit(ev: &str, fields: &[(&str, V)]) {
+    let mut s = String::from("{\"ev\":");
+    esc(ev, &mut s);
+    for (k, v) in fields {
+        s.push(',');
+        esc(k, &mut s);
+        s.push(':');
+        match v {
+            V::S(x) => esc(x, &mut s),
+            V::N(n) => s.push_str(&n.to_string()),
+            V::B(b) => s.push_str(if *b { "true" } else { "false" }),
+            V::L(xs) => {
+                s.push('[');
+                for (i, x) in xs.iter().enumerate() {
+                    if i > 0 {
+                        s.push(',');
+                    }
+                    esc(x, &mut s);
+                }
+                s.push(']');
+            }
+        }
+    }
+    s.push('}');
+    EVENTS.with(|e| e.borrow_mut().push(s));
+}
+
+/// Drain the events recorded on this thread (each one a JSON object).
+pub fn take() -> Vec<String> {
+    EVENTS.with(|e| std::mem::take(&mut *e.borrow_mut()))
+}
